@@ -1,6 +1,8 @@
 package pure
 
 import (
+	"time"
+	"io"
 	"bytes"
 	"context"
 	"fmt"
@@ -283,7 +285,7 @@ func TestC20Args(t *testing.T) {
 // ---- pooled sockets --------------------------------------------------------------------
 
 func TestC20Socket(t *testing.T) {
-	rec := vt.NewRec(t, "C20", "socket", "a pooled Socket (GetSocket) is dirtied (SetID, swap entries, a partial read that leaves bytes of the old connection in its buffer, optionally a protocol other than the default) and closed (returned to the pool); the next GetSocket on a new connection must report the new remote address as id, an empty swap, the requested protocol, and read only the new connection's bytes; non-trivial = the pool returned the dirtied object (measured); distinct by the generated values")
+	rec := vt.NewRec(t, "C20", "socket", "a pooled Socket (GetSocket) is dirtied (SetID, swap entries, a partial read that leaves bytes of the old connection in its buffer, optionally a protocol other than the default) and closed (returned to the pool); the next GetSocket on a new connection must report the new remote address as id, an empty swap, the requested protocol, read only the new connection's bytes, write a message to the new connection, and close that connection when it is closed in turn (the other end reads EOF); non-trivial = the pool returned the dirtied object (measured); distinct by the generated values")
 	old := debug.SetGCPercent(-1)
 	defer debug.SetGCPercent(old)
 	rapid.Check(t, func(t *rapid.T) {
@@ -310,7 +312,6 @@ func TestC20Socket(t *testing.T) {
 
 		p2 := vt.NewPair()
 		s2 := socket.GetSocket(p2.A)
-		defer s2.Close()
 		reused := fmt.Sprintf("%p", s1) == fmt.Sprintf("%p", s2)
 		rec.Case(fmt.Sprintf("%x|%s|%d|%d|%x", leftover, id, nswap, readN, newBytes), reused, fmt.Sprintf("reused=%v", reused))
 		if rec.WantSample() && reused {
@@ -326,18 +327,42 @@ func TestC20Socket(t *testing.T) {
 			t.Fatalf("recycled socket's swap map is not empty")
 		}
 		p2.B.Write(newBytes)
-		p2.B.Close()
-		var got []byte
-		tmp := make([]byte, 64)
-		for {
-			n, err := s2.Read(tmp)
-			got = append(got, tmp[:n]...)
-			if err != nil {
-				break
-			}
+		got := make([]byte, len(newBytes))
+		if _, err := io.ReadFull(s2, got); err != nil || !bytes.Equal(got, newBytes) {
+			t.Fatalf("recycled socket read %s (%v), the new connection carried %s", vt.Hex(got), err, vt.Hex(newBytes))
 		}
-		if !bytes.Equal(got, newBytes) {
-			t.Fatalf("recycled socket read %s, the new connection carried %s", vt.Hex(got), vt.Hex(newBytes))
+		// the new user's connection is open: a message can be written, and Close closes this
+		// connection (the other end reads what was written and then EOF, nothing else)
+		m := socket.GetMessage()
+		m.SetMtype(1)
+		m.SetSeq(7)
+		m.SetServiceMethod("/recycled")
+		m.SetBodyCodec('s')
+		m.SetBody("hello")
+		p2.SetCapture(vt.AtoB, true)
+		if err := s2.WriteMessage(m); err != nil {
+			t.Fatalf("writing a message on a socket obtained from GetSocket for a new, open connection failed: %v (pool returned the previous user's object: %v)", err, reused)
+		}
+		socket.PutMessage(m)
+		if err := s2.Close(); err != nil {
+			t.Fatalf("Close of the socket: %v", err)
+		}
+		rest := make(chan error, 1)
+		go func() {
+			p2.B.SetReadDeadline(time.Now().Add(vt.LivenessBound))
+			_, err := io.Copy(io.Discard, p2.B)
+			rest <- err
+		}()
+		select {
+		case err := <-rest:
+			if err != nil {
+				t.Fatalf("after Close of a socket obtained from GetSocket the other end of its connection does not read EOF: %v (pool returned the previous user's object: %v): Close did not close the connection", err, reused)
+			}
+		case <-time.After(vt.LivenessBound + time.Second):
+			t.Fatalf("reading the other end of a closed socket's connection did not return")
+		}
+		if len(p2.Stream(vt.AtoB)) == 0 {
+			t.Fatalf("the written message did not reach the connection")
 		}
 	})
 }
